@@ -24,6 +24,14 @@ CHECKS = {
             "Held on the executions observed: retry corpus with crash points between attempts; packaged strategies checked against the exact backoff formula with pinned jitter."),
     "C13": ("fault_enumeration", "2 C13", "runtime monitoring: (state, attempt) per poll, decisions vs records + direct wait-strategy check",
             "Held on the executions observed: wait_for_condition corpus (states x decisions x serdes) with crash points between polls; packaged wait strategies checked directly."),
+    "C05": ("exploration", "2 C05", "runtime monitoring: recorded hand-over history vs delivered API calls on a real ExecutionState (FIFO, exactly-once, limits, token chain, logical quiescence rule)",
+            "Held on the trials observed: producers x sizes x batcher configurations x client latency x yield injection, plus a forced lost-wake-up interleaving; liveness restated as bounded release in a quiescent closed system."),
+    "C15": ("exploration", "2 C15", "runtime monitoring of the public serialize/deserialize functions over a typed-grammar generator with a type-exact canonical-form oracle",
+            "Held on the values generated (apart from the listed deep-nesting finding): 64k values per quick run over the stated grammar plus adversarial classes."),
+    "C19": ("exploration", "2 C19", "runtime monitoring: arrival tickets recorded under the lock's own mutex vs grant order, exclusivity, break semantics, logical wedge rule, under yield injection",
+            "Held on the histories observed: thousands of short multi-thread histories with LINE-level yield injection and exception injection."),
+    "C20": ("exploration", "2 C20", "runtime monitoring of the public codec methods and factories over a model-instance generator with a normal form for the permitted losses",
+            "Held on the instances generated: every type/status/sub-type/action, optional-field patterns, nested errors, timestamps incl. epoch 0."),
 }
 
 NOT_YET = "check under construction in this session (machinery not yet registered)"
